@@ -98,6 +98,10 @@ def step (op : String) (gs : List (List Int)) : String :=
     match unetP p with
     | some P => fullOn (unet P L.toNat) (unetC cin.toNat cout.toNat F.toNat L.toNat) n cin dims
     | none => "err BadOp"
+  | "mdunetF", [[L], p, [n, cin, cout, F], dims] =>
+    match unetP p with
+    | some P => fullOn (unet P L.toNat) (mdUnetC cin.toNat cout.toNat F.toNat L.toNat) n cin dims
+    | none => "err BadOp"
   | "normunetF", [[L], p, [groups], [n, cin, cout, F], dims] =>
     match unetP p with
     | some P =>
